@@ -15,7 +15,8 @@ Inductive hop := OArray (esz : N) | OVecPush (esz : N) | OVecReserve (esz : N) |
                | OConcatDouble (slen : N)
                | OLoop (allocs : list (N * bool))
                | OChurn (allocs : list (N * bool)) (rsv : Z)    (* n closures created and dropped, then two Array<Int>(rsv) *)
-               | OChurnOver (allocs : list (N * bool)) (rsv : Z).   (* one Array<Int>(rsv) first, then the same *)
+               | OChurnOver (allocs : list (N * bool)) (rsv : Z)
+               | OBytesMany (sz : Z) | OBytesClone | OBytesResize (init : Z) | OBytesCycle (sz : Z).   (* byte buffers: n kept; one + two clones; resize; alloc / free *)   (* one Array<Int>(rsv) first, then the same *)
 
 (* a = alloc(n); free(a); b = alloc(n); c = alloc(n): the second allocation reuses the freed slot of the first *)
 Definition manual_reuse (m : mem) (n : Z) : res * mem :=
@@ -136,6 +137,21 @@ Definition churn_step (allocs : list (N * bool)) (st : res * chst) : res * chst 
 Definition churn_run (n : N) (allocs : list (N * bool)) (m : mem) : res * chst :=
   N.iter n (churn_step allocs) (ROk, mkCh m 0 0 INITIAL_GC_THRESHOLD).
 
+(* ---- byte buffers (std.bytes) *)
+Definition bytes_seq_step (cap : N) (sz : Z) (st : res * mem) : res * mem :=
+  match st with
+  | (ROk, m) => let '(r, m', _) := op_bytes cap m sz in (r, m')
+  | _ => st
+  end.
+Definition bytes_many (cap : N) (sz : Z) (k : N) (m : mem) : res * mem := N.iter k (bytes_seq_step cap sz) (ROk, m).
+(* bytes.resize(b, n) of a buffer of `old` bytes: growth is checked and charged, shrinking gives the difference back *)
+Definition bytes_resize (m : mem) (old : N) (n : Z) : res * mem :=
+  if (n <=? 0)%Z then (RTypeErr, m)
+  else if (MAX_ALLOC <? Z.to_N n)%N then (RTypeErr, m)
+  else if negb BYTES_CHARGED then (ROk, m)
+  else if (old <? Z.to_N n)%N then (if ensure m (Z.to_N n - old)%N then (ROk, add_manual m (Z.to_N n - old)%N) else (ROom, m))
+  else (ROk, mkMem (heap m) (manual m - (old - Z.to_N n))%N (maxb m)).
+
 (* ---- what the host was asked for: 1 = some request of at least 2 * HOST_T bytes is in the trace, 0 = every request
    is at most HOST_T / 2, 2 = in between / not modelled (the tie then accepts either) *)
 Definition HOST_T : N := 65536.
@@ -186,6 +202,14 @@ Definition hl_run1 (cap : N) (o : hop) (n : Z) (limit used0 : N) : list Z :=
       end
   | OConcatDouble sl => let '(r, c) := concat_gc (Z.to_N n) m sl in out r (c_mem c) 2
   | OLoop allocs => let '(r, m', _) := loop_run (Z.to_N n) cap allocs m (lit 8%N) in out r m' 2
+  | OBytesMany sz => let '(r, m') := bytes_many cap sz (Z.to_N n) m in out r m' 2
+  | OBytesClone => let '(r, m') := bytes_many cap n 3 m in out r m' 2
+  | OBytesResize init =>
+      match op_bytes cap m init with
+      | (ROk, m1, _) => let '(r, m2) := bytes_resize m1 (Z.to_N init) n in out r m2 2
+      | (r, m1, _) => out r m1 2
+      end
+  | OBytesCycle sz => if (n <=? 0)%Z then out ROk m 2 else let '(r, _, _) := op_bytes cap m sz in out r m 2
   | OChurn allocs rsv => churn_then allocs rsv m
   | OChurnOver allocs rsv =>
       match op_array cap 8 m rsv with
